@@ -34,10 +34,31 @@ def run(ctx):
                     yield kind, parts, True, 0, n
                     yield kind, parts, False, 1, n
         traces, meta = SP.run_streams(ctx, streams, jobs_of)
+        # streams much larger than the read-ahead buffer of the seek-back wrapper: the position after each object still
+        # is the end of its encoding, one object per encoding (sampled arrival plans)
+        from .c05 import big_streams
+        big = big_streams(ctx, first_sid=len(streams) + 1)
+
+        def big_jobs(st):
+            n = len(st.data)
+            for kind in ('K3', 'K4'):
+                yield kind, [n], True, 0, n
+                for _ in range(1 if ctx.quick else 4):
+                    parts, left = [], n
+                    while left:
+                        k = min(left, rnd.choice([1, 7, 100, 1000, 3000, 8192, 8193]))
+                        parts.append(k)
+                        left -= k
+                    yield kind, parts, rnd.random() < 0.5, 0, n
+        t3, m3 = SP.run_streams(ctx, big, big_jobs)
+        for t in t3:
+            t['id'] += len(traces)
+        traces += t3
+        meta.update({k + len(traces) - len(t3): v for k, v in m3.items()})
         t2, m2 = SP.run_k2_streams(ctx, streams, first_id=len(traces), limit=20)
         traces += t2
         meta.update(m2)
         SP.finish_streams(ctx, sc, traces, meta, clauses=CLAUSES, name='strace_pos')
         ctx.rule += ('; streaming clause: streams of 2..4 encodings back to back, whole / octet-wise / item-wise / random '
-                     'arrival plans, kinds K3, K4, K2: one object per encoding and stream position after each object = '
+                     'arrival plans, kinds K3, K4, K2, and two streams much larger than 8 KiB (sampled plans): one object per encoding and stream position after each object = '
                      'end of that encoding (K3: raw position, K2: BytesIO.tell), judged by spec/Trace_Stream.tla')
